@@ -272,6 +272,15 @@ func (c *Ctx) checkRegistryPassCoverage(rule, pass, reportMethod string) {
 		c.bad(rule, key, outer.pos, fmt.Sprintf("inside the shard loop the pass does not contain exactly one loop over every scope of that shard (bucket.s), found %d", n))
 		return
 	}
+	// the shard loop is reached on every path through the pass: a pass that returns before it (a
+	// try-lock that "coalesces" overlapping passes, an idle hint) delivers nothing although it
+	// started after the last update
+	for _, r := range returnsOf(fn) {
+		if !outer.loop.Header.Dominates(r.Block()) {
+			c.bad(rule, key, r.Pos(), "the registry pass can return without visiting the shards (a return that the shard loop does not dominate): a pass that starts after the last update / increment may deliver nothing")
+			return
+		}
+	}
 	// the shard loop may only be left through its header
 	if pos := outer.earlyExit(); pos != token.NoPos {
 		c.bad(rule, key, pos, "the shard loop (or the per-scope loop) can be left early: later shards/scopes are not reported")
@@ -337,5 +346,48 @@ func (c *Ctx) checkRegistryPassCoverage(rule, pass, reportMethod string) {
 		c.bad(rule, key, inner.pos, fmt.Sprintf("a scope can be reported up to %d times in one pass", cnt.max))
 	default:
 		c.ok(rule, key, inner.pos, "all shards, all scopes of a shard, each reported exactly once")
+	}
+}
+
+// checkHistogramBucketCoverage: histogram.report / histogram.cachedReport visit EVERY bucket on every
+// path: exactly one loop over all of h.buckets (or h.samples), not left early, whose header dominates
+// every return of the function. A report that visits only the buckets some side structure (a pending
+// mask, a dirty list) names loses the samples of the buckets that structure cannot represent.
+func (c *Ctx) checkHistogramBucketCoverage(rule string) {
+	fB, fS := c.field("", "histogram", "buckets"), c.field("", "histogram", "samples")
+	if fB == nil || fS == nil {
+		c.missing(rule, "tally.histogram.buckets / samples")
+		return
+	}
+	for _, name := range []string{"report", "cachedReport"} {
+		fn := c.fn("", "histogram", name)
+		if fn == nil {
+			c.missing(rule, "tally.histogram."+name)
+			continue
+		}
+		key := c.fnKey(fn)
+		c.sawFunc(key)
+		isB, isS := recvField(fn, fB), recvField(fn, fS)
+		loops := elemLoopsOver(fn, func(v ssa.Value) bool { return isB(v) || isS(v) })
+		if len(loops) != 1 {
+			c.bad(rule, key, fn.Pos(), fmt.Sprintf("the histogram pass does not contain exactly one loop over all buckets (h.buckets / h.samples), found %d: some buckets are never (or repeatedly) reported", len(loops)))
+			continue
+		}
+		lp := loops[0]
+		if pos := lp.earlyExit(); pos != token.NoPos {
+			c.bad(rule, key, pos, "the loop over the histogram's buckets can be left early: the samples of later buckets are not delivered")
+			continue
+		}
+		bad := false
+		for _, r := range returnsOf(fn) {
+			if !lp.loop.Header.Dominates(r.Block()) {
+				bad = true
+				c.bad(rule, key, r.Pos(), "the histogram pass can return without walking all buckets (a return the bucket loop does not dominate): samples of buckets that the shortcut does not cover are never delivered")
+				break
+			}
+		}
+		if !bad {
+			c.ok(rule, key, lp.pos, "one loop over all buckets, never left early, on every path through the pass")
+		}
 	}
 }
